@@ -53,7 +53,7 @@ def _mean(xs):
     return s / len(xs)
 
 
-def h_response(ctx, scenario, bidir, spectrum='free'):
+def h_response(ctx, scenario, bidir, spectrum='free', fixed_slot=None):
     import io
     import gnpy.topology.request as rq_mod
     from gnpy.topology.request import compute_path_with_disjunction, ResultElement, jsontocsv
@@ -83,7 +83,7 @@ def h_response(ctx, scenario, bidir, spectrum='free'):
     line.oms, line_rev.oms = fwd, rev
     line.oms_id, line_rev.oms_id = 0, 1
     req = c13._request(thr, bidir=bidir)
-    req.N, req.M = [None], [None]
+    req.N, req.M = ([None], [None]) if fixed_slot is None else ([fixed_slot[0]], [fixed_slot[1]])
     eq_ = c13._eqpt(margin)
     trx = deepcopy(eq_['Transceiver']['Voyager'])
     trx.mode = [dict(format='mode 1', baud_rate=32e9, OSNR=thr, bit_rate=100e9, roll_off=0.15, tx_osnr=c13.TX_OSNR, min_spacing=37.5e9,
@@ -236,6 +236,11 @@ def jobs(tier):
         for bidir in (False, True):
             js.append(dict(name=f'H19:response:{sc}:{"bidir" if bidir else "unidir"}', fn='h_response', params=dict(scenario=sc, bidir=bidir),
                            cost=200 if bidir else 60, witness_every=3, budget_s=150 if tier == 'quick' else 600))
+    # operator-fixed slot centred on N = 0 (193.1 THz), and one at a negative N
+    for slot in ((0, 4), (-8, 4)):
+        js.append(dict(name=f'H19:response:zero:unidir:fixed_slot_N={slot[0]}', fn='h_response',
+                       params=dict(scenario='zero', bidir=False, fixed_slot=slot), cost=100, witness_every=3,
+                       budget_s=150 if tier == 'quick' else 600))
     for bidir in (False, True):
         js.append(dict(name=f'H19:response:zero:{"bidir" if bidir else "unidir"}:no_free_spectrum', fn='h_response',
                        params=dict(scenario='zero', bidir=bidir, spectrum='occupied'), cost=100, witness_every=3,
